@@ -403,3 +403,52 @@ fn u02_3_reader_file_key_formula() {
     assert!(key == want, "file key = hash(name, FILE_KEY), adjusted as (key + file position) ^ file size under FIX_KEY");
     core::mem::forget(fi);
 }
+
+// two control triples: the old-file cursor may already lie beyond the base when the second block starts (bsdiff allows a
+// seek past the end; the combine step then simply has nothing to add) - no panic, and an Ok output has the declared size
+// @harness unit=U08.2 props=C08,C05 kind=bounded bound="bsdiff buffer 62 bytes (header + 2 control triples + 6 payload bytes), output <= 4 bytes, base <= 2 bytes; all field values" timeout=900 target="patch/apply.rs: apply_bsd0_patch control loop (E11 block), two control blocks" oracle=bsd0_total
+#[kani::proof]
+#[kani::unwind(8)]
+#[kani::stub(alloc::fmt::format, stub_format)]
+fn u08_2_bsd0_apply_ctrl_two() {
+    let buf: [u8; 62] = kani::any();
+    let extra_start: usize = kani::any();
+    kani::assume(56 <= extra_start && extra_start <= 62);
+    let new_size: usize = kani::any();
+    kani::assume(new_size <= 4);
+    let base: [u8; 2] = kani::any();
+    let blen: usize = kani::any();
+    kani::assume(blen <= 2);
+    match blk_bsd0_apply_ctrl(&buf, 32, 56, extra_start, 24, new_size, &base[..blen]) {
+        Ok(v) => assert!(v.len() == new_size, "Ok output has the declared size"),
+        Err(e) => core::mem::forget(e),
+    }
+}
+
+// ------------------------------------------------------------------------------------ U02.4 table (de)serialisation layout
+// HashTable::from_bytes: the table is decrypted with the published key and entry i is decoded with the published layout
+// (name hashes at +0/+4, locale u16 at +8, platform u16 at +10, block index at +12) - whatever decoder the reader uses
+// @harness unit=U02.4 props=C02,C01 kind=bounded bound="table of 1 entry (16 bytes); every byte value" timeout=600 target="tables/hash.rs: HashTable::from_bytes (decrypt + entry layout)" oracle=build_lookup
+#[kani::proof]
+#[kani::unwind(20)]
+#[kani::stub(alloc::fmt::format, stub_format)]
+fn u02_4_hash_table_from_bytes_layout() {
+    let raw: [u8; 16] = kani::any();
+    let t = match HashTable::from_bytes(&raw, 1) {
+        Ok(t) => t,
+        Err(e) => {
+            core::mem::forget(e);
+            assert!(false, "16 bytes form a one-entry table");
+            return;
+        }
+    };
+    let mut w = [u32::from_le_bytes([raw[0], raw[1], raw[2], raw[3]]), u32::from_le_bytes([raw[4], raw[5], raw[6], raw[7]]),
+        u32::from_le_bytes([raw[8], raw[9], raw[10], raw[11]]), u32::from_le_bytes([raw[12], raw[13], raw[14], raw[15]])];
+    decrypt_block(&mut w, 0xC3AF_3770);
+    let e = &t.entries()[0];
+    assert!(e.name_1 == w[0] && e.name_2 == w[1], "name hashes are dwords 0 and 1");
+    assert!(e.locale == (w[2] & 0xFFFF) as u16, "locale is the low half of dword 2 (bytes +8, +9)");
+    assert!(e.platform == (w[2] >> 16) as u16, "platform is the high half of dword 2 (bytes +10, +11)");
+    assert!(e.block_index == w[3], "block index is dword 3");
+    core::mem::forget(t);
+}
